@@ -147,7 +147,7 @@ class OverlapScreenedBlock:
                    "shells and tolerance forwarded to the screening test")
             ref = ov.Overlap.construct_array_contraction(s1, s2)
             want = (shape["M"][0], (shape["la"] + 1) * (shape["la"] + 2) // 2, shape["M"][1], (shape["lb"] + 1) * (shape["lb"] + 2) // 2)
-            M.true("screened_block/%s/shape" % answer, tuple(out.shape) == want, str(out.shape))
+            out = M.shaped("screened_block/%s/shape" % answer, out, want)
             for idx in np.ndindex(*want):
                 M.eq("screened_block/%s/out%s" % (answer, tag(idx)), out[idx], 0 if answer else ref[idx])
         # default: no tolerance means the screening test is asked with None
